@@ -34,7 +34,7 @@ def check_property(pid, tier="quick", seed=0, write_baseline=False):
     t_start = time.time()
     repo = Repo()
     reg = Registry().load_dir(CONTRACT_DIR)
-    cache = Cache(tree_sha(repo.root) + engine_sha())
+    cache = Cache(hashlib.sha256((tree_sha(repo.root) + engine_sha()).encode()).hexdigest())
     timeout_ms = 60000 if tier == "quick" else 180000
     lines = []
     verdict = dict(violations=[], undecided=[], errors=[], known=[], degraded=[])
